@@ -4,6 +4,7 @@ from .core import main
 MODULES = {
     "C02": "props.c02",
     "C03": "props.c03",
+    "C04": "props.c04",
     "C11": "props.c11",
 }
 
